@@ -261,6 +261,9 @@ def cases(tier, seed):
                             (lay, sc, dp), "kind": "tiff", "layout": lay,
                             "scaling": sc, "depth": dp, "tier": tier})
     out.append({"id": "tiff:constant-image", "kind": "tiffconst"})
+    for dp in (8, 16):
+        out.append({"id": "tiff:unit-range:scaling=none:depth=%d" % dp,
+                    "kind": "tiffunit", "depth": dp})
     out.append({"id": "tiff:image-set", "kind": "tiffset"})
     for r in RASTERS:
         for ext in ("png", "tif"):
@@ -865,6 +868,35 @@ def _run_tiffconst(case, ck, d):
                 "%s" % (val, dtype, _short(g.ravel()[:4].tolist())))
         acc.append(np.nan_to_num(g, nan=-1.0))
     return digest(*acc)
+
+
+def _run_tiffunit(case, ck, d):
+    """an image whose values lie in [0, 1] (a normalised intensity, a mask)
+    exported without scaling: the stored values are the image's, to within
+    one count"""
+    import holopy as hp
+    from holopy.core.io import save_image
+    arr = ((np.arange(20) * 7) % 20).reshape(4, 5) / 19.0
+    im = _mkimage([4, 5], None, "float64", 0.1, "img",
+                  {f: "scalar" for f in FIELDS}, arr=arr)
+    path = os.path.join(d, "unit_%d.tif" % case["depth"])
+    try:
+        with warnings.catch_warnings():
+            warnings.simplefilter("ignore")
+            save_image(path, im, scaling=None, depth=case["depth"])
+            got = hp.load(path)
+        ck.trans += 2
+    except Exception as e:
+        ck.true("tiff-unit-range", False, "values in [0, 1], scaling=None: "
+                "%s" % _exc(e))
+        return "exc"
+    g = np.asarray(got.values, dtype=float).reshape(arr.shape)
+    e = float(np.abs(g - arr).max())
+    ck.metric("tiff-unit-range-error", e)
+    ck.true("tiff-unit-range", e <= 1.0, "values 0..1 exported with "
+            "scaling=None, depth=%s reload as %s..%s (error %.3g counts)" %
+            (case["depth"], _short(g.min()), _short(g.max()), e))
+    return digest(g)
 
 
 def _run_tiffset(case, ck, d):
@@ -1682,6 +1714,8 @@ def run_case(case):
             extra["counts"] = counts
         elif k == "tiffconst":
             fp = _run_tiffconst(case, ck, d)
+        elif k == "tiffunit":
+            fp = _run_tiffunit(case, ck, d)
         elif k == "tiffset":
             fp = _run_tiffset(case, ck, d)
         elif k == "raster":
